@@ -548,6 +548,10 @@ impl RowIdTreeMap {
                     count += set.insert_range(start..=end);
                 }
             }
+            if start_high == end_high {
+                // Also avoids overflowing `start_high` when the range ends in the last fragment.
+                break;
+            }
             start_high += 1;
             start_low = 0;
         }
